@@ -7,7 +7,8 @@
 (* internal/msgpipeline: RunEarlyChecks, check_runner).                     *)
 (*                                                                         *)
 (* Decision table (BUILDING.md pattern B).                                  *)
-(*   input  in = [tab, level, place, early, q, r, lists, client, ehlo, mf]  *)
+(*   input  in = [tab, level, place, early, q, r, lists, client, ehlo, mf,  *)
+(*                group]                                                    *)
 (*     level  "pipeline": the module is configured from configuration text *)
 (*            inside a real msgpipeline; the connection is announced with   *)
 (*            RunEarlyChecks (as endpoint/smtp does at EHLO), then one      *)
@@ -35,6 +36,8 @@
 (*     mf     [local, dom, canon, utf8]: MAIL FROM local@dom ("" = null     *)
 (*            reverse-path); canon = lower-case A-label form of dom; utf8 = *)
 (*            the client spells dom with U-labels (SMTPUTF8)                *)
+(*     group  block lists with identical directives are written as one      *)
+(*            block with several zone names                                 *)
 (*   output out = [action, stage, code, queries]                            *)
 (*     action  "none", "quarantine" (message delivered with the quarantine  *)
 (*             flag), "permreject" (5xx), "tempreject" (4xx)                *)
@@ -295,7 +298,11 @@ FixAns(l, ehlo, mf) ==
 Row(tab, level, place, early, q, r, lists, client, ehlo, mf) ==
   [tab |-> tab, level |-> level, place |-> place, early |-> early, q |-> q, r |-> r,
    lists |-> [k \in DOMAIN lists |-> FixAns(lists[k], ehlo, mf)],
-   client |-> client, ehlo |-> ehlo, mf |-> mf]
+   client |-> client, ehlo |-> ehlo, mf |-> mf, group |-> FALSE]
+(* "Using multiple arguments is equivalent to specifying the same configuration *)
+(* separately for each list": block lists with identical directives are written *)
+(* as one block with several zone names                                         *)
+Grouped(r) == [r EXCEPT !.group = TRUE]
 
 (* (a) score table: IPv4 lists with every score, listed or not, every pair of thresholds *)
 ScoreVals(n) == IF n <= 2 THEN {NotGiven, Given(0), Given(1), Given(2), Given(5), Given(0 - 1), Given(0 - 2)}
@@ -414,6 +421,16 @@ InDefaults ==
                         Ans(OfKind(l3), NX, NX))>>,
                 c, EhloDom, MfDom)
 
+(* (g2) several zones in one list block *)
+InGroup ==
+  \E n \in 2..3 :
+    \E ls \in [1..n -> {"nx", "in"}], sc \in {NotGiven, Given(2)}, eh \in YesNo, g \in BOOLEAN, c \in {C4, C6} :
+      LET r == Row("group", "pipeline", "global", FALSE, Given(2), Given(4),
+                   [k \in 1..n |-> Block(Zones[k], "yes", "absent", eh, "no", sc, DefResp,
+                                         Ans(OfKind(ls[k]), OfKind(ls[n + 1 - k]), NX))],
+                   c, EhloDom, MfDom)
+      IN in = IF g THEN Grouped(r) ELSE r
+
 (* (h) mixed table: Seed-dependent rows that cross every dimension of the    *)
 (* tables above (1-3 lists of either form with drawn flags, scores, filters  *)
 (* and answers for the three names; drawn identities, thresholds, level,     *)
@@ -447,8 +464,9 @@ RandRow(n) ==
       pl == IF lv = "module" THEN "global"
             ELSE Pick(<<"global", "global", "global", "global", "source", "destination">>, Draw(n, 3))
       id == IF pl = "global" THEN Pick(RIdents, Draw(n, 4)) ELSE <<EhloDom, MfDom>>
-  IN Row("mixed", lv, pl, lv = "pipeline" /\ Draw(n, 5) % 2 = 0, Pick(RQ, Draw(n, 6)), Pick(RR, Draw(n, 7)),
-         [j \in 1..nl |-> RList(n, j)], Pick(RClients, Draw(n, 8)), id[1], id[2])
+      r  == Row("mixed", lv, pl, lv = "pipeline" /\ Draw(n, 5) % 2 = 0, Pick(RQ, Draw(n, 6)), Pick(RR, Draw(n, 7)),
+                [j \in 1..nl |-> RList(n, j)], Pick(RClients, Draw(n, 8)), id[1], id[2])
+  IN IF Draw(n, 9) % 2 = 0 THEN Grouped(r) ELSE r
 InMixed == \E n \in 1..RandN : in = RandRow(n)
 
 (* what the harness serves: the answers at the names this specification      *)
@@ -463,7 +481,7 @@ ZoneOf(i) ==
   IN cat(1)
 
 -----------------------------------------------------------------------------
-Init == InScore \/ InKinds \/ InFilter \/ InTemp \/ InAddr \/ InPlace \/ InDefaults \/ InMixed
+Init == InScore \/ InKinds \/ InFilter \/ InTemp \/ InAddr \/ InPlace \/ InDefaults \/ InGroup \/ InMixed
 Next == FALSE /\ UNCHANGED in      \* one state per input (CHECK_DEADLOCK FALSE)
 Spec == Init /\ [][Next]_vars
 
